@@ -20,13 +20,13 @@ func init() {
 			"(R3) HeaderConn.Write: the header is written only inside sync.Once.Do (which makes concurrent first writers wait), in one underlying Write in front of the caller's bytes; the plain write happens only when this call did not run the Once; " +
 			"(R4) Run waits for every routed listener to finish and closes the default listener after the mux is done; each routed listener's monitor closes it when the mux stops; Accept selects on the done channel.",
 		NotDecided: "byte transparency of the default route under arbitrary write splits; accept/close races; that Accept never blocks after stop for every ordering.",
-		Rules: []Rule{
+		Rules: append([]Rule{
 			{ID: "C16.R1", Doc: "routes only under mu; Route registers only absent prefixes; closes inside sync.Once with the error stored first", Run: c16r1},
 			{ID: "C16.R2", Doc: "routeConn: ReadFull of prefixLen bytes; key = those bytes; prefix replay only on default route; conn closed xor delivered once; the hand-off channel is unbuffered", Run: c16r2},
 			{ID: "C16.R3", Doc: "HeaderConn.Write: header only inside once.Do, prepended in a single Write; plain Write only if the Once did not run in this call", Run: c16r3},
 			{ID: "C16.R4", Doc: "Run waits for routed listeners and closes the default one after done; monitorListener closes on m.done; Accept selects on done", Run: c16r4},
 			{ID: "C16.R5", Doc: "close-once for every close(ch) in drpcmigrate", Run: func(c *an.Ctx) { closeOnce(c, "drpcmigrate") }},
-		},
+		}, disciplineRules("C16", "drpcmigrate")...),
 	})
 }
 
@@ -114,6 +114,7 @@ func c16r1(c *an.Ctx) {
 }
 
 func c16r2(c *an.Ctx) {
+	handOffSelect(c)
 	a := A(c)
 	rc := c.Fn("drpcmigrate", "(*ListenMux).routeConn")
 	prefixLen := a.field("drpcmigrate", "ListenMux", "prefixLen")
@@ -341,6 +342,53 @@ func orderOfVariadic(v ssa.Value, first func(ssa.Value) bool) bool {
 	return false
 }
 
+// handOffSelect: the select that hands the connection to a listener gives up only when that listener is done.
+func handOffSelect(c *an.Ctx) {
+	a := A(c)
+	rc := c.Fn("drpcmigrate", "(*ListenMux).routeConn")
+	ldone := a.field("drpcmigrate", "listener", "done")
+	n := 0
+	for _, fn := range extendedBody(rc) {
+		an.Instrs(fn, func(in ssa.Instruction) {
+			sel, ok := in.(*ssa.Select)
+			if !ok {
+				return
+			}
+			var send *ssa.SelectState
+			for _, st := range sel.States {
+				if st.Dir == types.SendOnly {
+					send = st
+				}
+			}
+			if send == nil {
+				return
+			}
+			n++
+			// the listener the connection is sent to: the receiver of the Conns() call / the root of the channel field
+			var lis ssa.Value
+			ch := an.Unwrap(send.Chan)
+			if call, isCall := ch.(*ssa.Call); isCall && len(call.Common().Args) > 0 {
+				lis = call.Common().Args[0]
+			} else {
+				lis = an.PathOf(ch).Root
+			}
+			okDone, nRecv := false, 0
+			for _, st := range sel.States {
+				if st.Dir != types.RecvOnly {
+					continue
+				}
+				nRecv++
+				if isLoadOfField(st.Chan, ldone) && lis != nil && sameValue(an.PathOf(an.Unwrap(st.Chan)).Root, lis) {
+					okDone = true
+				}
+			}
+			c.Check(okDone && sel.Blocking, an.ShortFunc(fn)+" | the hand-off waits for Accept or for the done channel of the same listener", c.At(in), "",
+				"the connection is offered to a listener but the select does not give up when that listener is closed (it watches another channel, or none): a connection routed to a closed listener is neither delivered nor closed")
+		})
+	}
+	c.Floor("hand-off selects in routeConn", 1, n)
+}
+
 func c16r3(c *an.Ctx) {
 	a := A(c)
 	fn := c.Fn("drpcmigrate", "(*HeaderConn).Write")
@@ -502,6 +550,29 @@ func c16r3(c *an.Ctx) {
 		c.Check(okAfter && guarded, "(*HeaderConn).Write | plain Write only after once.Do returned and only if it did not run here", c.At(in), "", "payload can be written before the header write completed, or twice in the call that wrote the header")
 	})
 	c.Floor("plain writes in HeaderConn.Write", 1, nPlain)
+	// io.Writer: the count reported for the first write is about the caller's bytes: the count of the combined
+	// write goes through a subtraction of len(header) before it is returned
+	lenHeader := func(v ssa.Value) bool {
+		lc, isCall := v.(*ssa.Call)
+		if !isCall {
+			return false
+		}
+		b, isB := lc.Common().Value.(*ssa.Builtin)
+		return isB && b.Name() == "len" && isLoadOfField(an.Unwrap(lc.Common().Args[0]), header)
+	}
+	adjusted := false
+	for _, f := range []*ssa.Function{fn, clo} {
+		an.Instrs(f, func(in ssa.Instruction) {
+			if sub, ok := in.(*ssa.BinOp); ok && sub.Op == token.SUB && lenHeader(sub.Y) && len(*sub.Referrers()) > 0 {
+				if _, isK := sub.X.(*ssa.Const); !isK {
+					adjusted = true
+				}
+			}
+		})
+	}
+	if nGood > 0 {
+		c.Check(adjusted, "(*HeaderConn).Write | the count of the combined write is reduced by len(header) before it is reported", c.P.Pos(fn.Pos()), "", "the first Write reports the header's bytes as the caller's: n exceeds len(buf), callers that resume after a short write (io.Copy, bufio) skip payload bytes or fail with an invalid write count")
+	}
 }
 
 func c16r4(c *an.Ctx) {
@@ -546,7 +617,16 @@ func c16r4(c *an.Ctx) {
 		an.Instrs(cl, func(in ssa.Instruction) {
 			if call, ok := in.(*ssa.Call); ok {
 				if b, isB := call.Common().Value.(*ssa.Builtin); isB && b.Name() == "close" {
-					okClose = true
+					// on every way through the Once: whatever error is recorded, the done channel is closed
+					all := true
+					for _, ret := range an.Returns(cl) {
+						if retReachable(cl, ret) && !an.InstrDominates(in, ret) {
+							all = false
+						}
+					}
+					if all {
+						okClose = true
+					}
 				}
 			}
 		})
